@@ -19,7 +19,14 @@ def log(*a):
 
 # ---------------------------------------------------------------- work dirs
 def workdir(tag):
-    d = os.path.join(VERIF, ".work", "%s-%d" % (tag, os.getpid()))
+    root = os.path.join(VERIF, ".work")
+    # scratch directories of runs that were killed: their process is gone
+    if os.path.isdir(root) and not os.environ.get("VERIF_KEEP"):
+        for name in os.listdir(root):
+            m = re.match(r".*-(\d+)$", name)
+            if m and not os.path.exists("/proc/%s" % m.group(1)):
+                shutil.rmtree(os.path.join(root, name), ignore_errors=True)
+    d = os.path.join(root, "%s-%d" % (tag, os.getpid()))
     shutil.rmtree(d, ignore_errors=True)
     os.makedirs(d)
     return d
